@@ -15,6 +15,7 @@ arrays).  Writes through pointer parameters are judged against the capacity
 parameter paired with the pointer (table CAP_PAIRS, confirmed by reading and
 cross-checked at every call site by M3c)."""
 from . import ir, guard, lin as L
+from .facts import AnalysisBroken
 from .ir import sk, pp, cval, apath
 
 # writer functions of libc / zlib: (destination arg, length arg, kind)
@@ -867,6 +868,16 @@ class Analysis:
                             break
                     if bad:
                         break
+                if bad is not None and len(forms) == 1:
+                    # two counters of one loop (`buf[pos - dots]`): an inductive invariant of the loop
+                    try:
+                        from . import termin
+                        if termin.invariant_nonneg_at(self.P, f, x, forms[0]):
+                            self.sites.append(Site("M2", f, x, pp(x)[:60], True, "%s >= 0 is an invariant of the enclosing loop "
+                                                   "(holds on entry, kept by every path round it)" % L.show(forms[0])))
+                            continue
+                    except AnalysisBroken:
+                        pass
                 if bad is not None and self.require(f, x, "M2", pp(x)[:60], forms, bad):
                     self.sites.append(Site("M2", f, x, pp(x)[:60], True, "moved to the callers of %s: %s" % (f.name, bad)))
                     continue
